@@ -4,6 +4,13 @@ import json, os, sys
 ROOT = os.path.dirname(os.path.dirname(os.path.abspath(__file__)))
 
 CHECKS = {
+ "C01": dict(level="exploration", engine="hypothesis+z3", design="3/C01",
+   technique="Hypothesis-generated NL models x acceptance tables x cvt options through the real flattener/converter into a recording ModelAPI; "
+             "exact reference evaluator vs z3 exists-auxiliary oracle on every grid point; shrinking to a replay file",
+   text="Small-scope generated models of the exact-operator fragment are converted under generated native-acceptance tables and options; for every "
+        "point of the gridded original domain the NL model's truth (exact rationals) is compared with satisfiability of the delivered model "
+        "over the auxiliary variables (z3), and objective values are compared. Refusals must carry a diagnostic; infeasibility claims are checked.",
+   note="trusts z3, my NL emitter/evaluator, the documented meaning of each flat constraint type; models have <= 4 variables"),
  "C17": dict(level="exploration", engine="enumeration+rapidcheck", design="3/C17",
    technique="complete enumeration of 8/16-bit operand pairs + boundary sets + rapidcheck random pairs against an __int128 oracle, UBSan on",
    text="All int8/uint8 operand pairs (thorough: all 2^32 16-bit pairs) for + - * and the narrowing constructor are enumerated; "
